@@ -91,8 +91,12 @@ func (l *Lexer) atTaskKeyword() bool {
 	if !strings.HasPrefix(rest, token.TASK.String()) {
 		return false
 	}
-	r, _ := utf8.DecodeRuneInString(rest[len(token.TASK.String()):])
-	return !isValidIdent(r)
+	after := rest[len(token.TASK.String()):]
+	if r, _ := utf8.DecodeRuneInString(after); isValidIdent(r) {
+		return false
+	}
+	// A variable may be called 'task' too: 'task := ...' declares it, there is no task being defined
+	return !strings.HasPrefix(strings.TrimLeft(after, " \t"), token.DECLARE.String())
 }
 
 // atEOF returns whether or not the lexer is currently at the end of a file.
